@@ -67,6 +67,20 @@ impl RequestServerImpl {
         Ok(())
     }
 
+    /// Token extraction and dispatch exactly as `request()` performs them, without the connection
+    /// bookkeeping (the deterministic-simulation harness has no tonic transport).
+    #[cfg(rnacos_verif)]
+    pub async fn verif_dispatch(
+        &self,
+        payload: Payload,
+        mut request_meta: RequestMeta,
+    ) -> anyhow::Result<crate::grpc::HandlerResult> {
+        self.fill_token_session(&payload, &mut request_meta)
+            .await
+            .ok();
+        self.invoker.handle(payload, request_meta).await
+    }
+
     fn record_req_metrics(&self, duration: f64, _success: bool) {
         self.app
             .metrics_manager
